@@ -166,10 +166,24 @@ class NameLookupRewriteVisitor(NodeTransformerBase):
         return super().generic_visit(node)
 
     def visit_Lambda(self, node: ast.Lambda) -> ast.AST:
+        # Default values are evaluated in the enclosing scope (where
+        # the parameters are not yet bound).
+        args = node.args
+        args.defaults = [self.visit(d) for d in args.defaults]
+        args.kw_defaults = [
+            d if d is None else self.visit(d) for d in args.kw_defaults
+        ]
+
         # A nested scope sees the names bound by the enclosing ones.
         self.scopes.append(set(self.scopes[-1]))
         try:
-            return super().generic_visit(node)
+            for arg in args.posonlyargs + args.args + args.kwonlyargs:
+                self.visit(arg)
+            for arg in (args.vararg, args.kwarg):
+                if arg is not None:
+                    self.visit(arg)
+            node.body = self.visit(node.body)
+            return node
         finally:
             self.scopes.pop()
 
